@@ -38,6 +38,39 @@ def Ask.reads (a : Ask) : Prop := a.allocates = false
 
 instance (a : Ask) : Decidable a.reads := by unfold Ask.reads; infer_instance
 
+/-! ## who calls whom in the code (over `Gen/SortCalls.lean`) -/
+
+/-- what a method must not reach if it is to leave the cmap and the forced-unicode tables alone: the allocating
+look-up and its helpers, the two forced dicts themselves (read or written), every mutator of the `UnicodeData` dict,
+assignment to / deletion of `self[...]`, `super(...)` (the way the mutators write), posting a notification -/
+def writers : List String :=
+  ["forcedUnicodeForGlyphName", "_loadForcedUnicodeValue", "_findAvailablePUACode", "_setupForcedValueDict",
+   "_glyphNameToForcedUnicode", "_forcedUnicodeToGlyphName",
+   "addGlyphData", "removeGlyphData", "__setitem__", "__delitem__", "clear", "update", "pop", "popitem", "setdefault",
+   "<super>", "<item:Store>", "<item:Del>", "postNotification"]
+
+/-- the sorting side of the class: `sortGlyphNames`, its recursion helpers and the `_sortBy…` / canned methods -/
+def isSortMethod (m : String) : Bool :=
+  m == "sortGlyphNames" || m == "_flattenSortResult" || m == "_sortRecurse" || m == "_cannedSortDesign" ||
+  "_sortBy".toList.isPrefixOf m.toList
+
+/-- property getters the look-ups go through to find the font (`self.font` → `layerSet` → `layer`) -/
+def parentGetters : List String := ["font", "_get_font", "layerSet", "_get_layerSet", "layer", "_get_layer"]
+
+/-- what M-Sort and M-Lookups take from `unicodeTools`: the functions ported into `NameLookups` over `UniDB`,
+and the three ordered tables of `Tables` -/
+def unicodeToolsUsed : List String :=
+  ["unicodeTools.decompositionBase", "unicodeTools.closeRelative", "unicodeTools.script", "unicodeTools.block",
+   "unicodeTools.category", "unicodeTools.orderedScripts", "unicodeTools.orderedBlocks",
+   "unicodeTools.orderedCategories"]
+
+/-- a set of names closed under "refers to" -/
+def Closed (calls : List (String × List String)) (R : List String) : Prop :=
+  ∀ m ∈ R, ∀ x ∈ (AL.get? calls m).getD [], x ∈ R
+
+instance (calls : List (String × List String)) (R : List String) : Decidable (Closed calls R) := by
+  unfold Closed; infer_instance
+
 /-! ## small worlds for the examples -/
 
 /-- Latin letters, an accented one (NFD: a + combining acute), ǻ (å + acute, å = a + ring: two links), parentheses -/
